@@ -474,6 +474,11 @@ class Evaluator:
             if isinstance(e.op, ast.Not):
                 return not self._truth(v)
             if isinstance(v, Obj):
+                dunder = {ast.USub: "__neg__", ast.UAdd: "__pos__", ast.Invert: "__invert__"}.get(type(e.op))
+                if dunder and v.mod != "builtins":
+                    ok_, rv = self._obj_method(v, dunder, [])
+                    if ok_:
+                        return rv
                 raise Undecided("unary operator on object")
             if isinstance(e.op, ast.USub):
                 return -v
